@@ -51,6 +51,9 @@ def st_soc(tier):
                 kind = draw(st.sampled_from(["storage", "storage", "status"]))
                 size = draw(st.one_of(st.integers(1, 32), st.integers(33, 70), st.sampled_from([32, 64, 33, 8])))
                 regs.append({"kind": kind, "size": size})
+            if draw(st.integers(0, 3)) == 0:
+                # one register pinned at a fixed location of its bank; lower locations that stay unused get filler registers
+                regs[draw(st.integers(0, len(regs) - 1))]["n"] = draw(st.integers(0, 6))
             mem = draw(st.one_of(st.none(), st.none(), st.sampled_from([[32, 8], [32, 16], [8, 16], [16, 8]])))
             slot = draw(st.one_of(st.none(), st.none(), st.integers(4, 12)))
             ev = draw(st.one_of(st.none(), st.fixed_dictionaries({"n": st.integers(1, 3), "irq": st.one_of(st.none(), st.none(), st.integers(0, 31))})))
@@ -116,9 +119,9 @@ def _build(case):
             self.regs = []
             for ri, r in enumerate(spec["regs"]):
                 if r["kind"] == "storage":
-                    o = CSRStorage(r["size"], name="r%d" % ri)
+                    o = CSRStorage(r["size"], name="r%d" % ri, n=r.get("n"))
                 else:
-                    o = CSRStatus(r["size"], name="r%d" % ri)
+                    o = CSRStatus(r["size"], name="r%d" % ri, n=r.get("n"))
                 setattr(self, "r%d" % ri, o)
                 self.regs.append(o)
             if spec["mem"]:
@@ -248,6 +251,18 @@ def _k(case, base):
     return base
 
 
+def _export_crash(ex, case, cls):
+    """an exception that escapes from an exporter of the tree under test on a SoC that finalised is a finding, one raised by
+    the harness' own code is a harness error (re-raised)"""
+    import traceback
+    tb = traceback.extract_tb(ex.__traceback__)
+    inner = tb[-1]
+    if not os.path.realpath(inner.filename).startswith(os.path.realpath(env.REPO) + os.sep):
+        raise ex
+    return bad("export-crash", "%s(%s) escaped from the exporters at %s:%d (%s)" % (type(ex).__name__, str(ex)[:120],
+               os.path.relpath(inner.filename, env.REPO), inner.lineno, inner.name), key="c14:export-crash", cls=cls)
+
+
 def _acc_pairs(name, r, hfuncs, busword):
     """(address, first bit of the register held there) as the generated accessors compose the register; registers wider
     than 64 bit have no accessor: most significant word first from the published address and size."""
@@ -352,9 +367,12 @@ def run_soc(case):
         raise
     cls = ["std:" + case["std"], "dw%d" % case["dw"], case["ic"]]
     csr_base = soc.mem_regions["csr"].origin
-    js = json.loads(export.get_csr_json(soc.csr_regions, soc.constants, soc.mem_regions))
-    hdr = export.get_csr_header(soc.csr_regions, soc.constants, csr_base=csr_base)
-    csv = export.get_csr_csv(soc.csr_regions, soc.constants, soc.mem_regions)
+    try:
+        js = json.loads(export.get_csr_json(soc.csr_regions, soc.constants, soc.mem_regions))
+        hdr = export.get_csr_header(soc.csr_regions, soc.constants, csr_base=csr_base)
+        csv = export.get_csr_csv(soc.csr_regions, soc.constants, soc.mem_regions)
+    except Exception as ex:
+        return _export_crash(ex, case, cls)
     hbase, hdefs, hsizes, hfuncs = _parse_header(hdr)
     # ---- formats agree
     for name, r in js["csr_registers"].items():
@@ -371,7 +389,10 @@ def run_soc(case):
             return bad("formats", "bank %s: JSON base %#x, header %r" % (name, b, hdefs.get("CSR_%s_BASE" % name.upper())), key="c14:formats", cls=cls)
     if js["constants"].get("config_csr_data_width") != case["csr_dw"]:
         return bad("constants", "CONFIG_CSR_DATA_WIDTH = %r, SoC built with %d" % (js["constants"].get("config_csr_data_width"), case["csr_dw"]), key="c14:constants", cls=cls)
-    r_ = _formats_more(case, soc, js, hdr, csv, hdefs, hfuncs, cls)
+    try:
+        r_ = _formats_more(case, soc, js, hdr, csv, hdefs, hfuncs, cls)
+    except Exception as ex:
+        return _export_crash(ex, case, cls)
     if r_ is not None:
         return r_
     # ---- plan of bus accesses from the PUBLISHED information only
